@@ -19,6 +19,7 @@ import dds._eval_ctx as ectx
 from dds.structures import CanonicalPath
 
 PROPERTY = "C14"
+STUBBED_NAMES_TEMPLATES = True
 EXPLANATION = "C14 kernel: is_authorized_path against the segment-prefix specification, as a direct z3 string query generated from the method's AST (free segment and package names) and by symbolic execution of the method itself."
 FUNCTIONS_ENCODED = ["dds._eval_ctx.EvalMainContext.is_authorized_path"]
 BOUNDS = {
@@ -148,6 +149,79 @@ def kern(a: int, n: int, r: int) -> bool:
     return h.verdict(real(parts, accepted) == spec(parts, accepted))
 
 
+# ---------------------------------------------------------------- (b) package templates across the accepted / non-accepted boundary
+
+
+def make_fn(fn, sel, tag):
+    if fn == "hist":
+        import harness.C01 as base
+
+        ps = base._leaf_params(sel)
+        return h.gen_fn(tag, "hist", [(n, t) for (n, t, _p) in ps], [p for (_n, _t, p) in ps if p], "harness.C14", "hist_impl")
+    if fn == "refuse":
+        return h.gen_fn(tag, "refuse", [("k", "int")], ["0 <= k <= 1"], "harness.C14", "refuse_impl")
+    return globals()[fn]
+
+
+def setup_query(sel):
+    if sel.get("template"):
+        import harness.C01 as base
+
+        base.setup_query(sel)
+
+
+def hist_impl(a):
+    import harness.C01 as base
+    import harness.C02 as c02
+    from vlib.templates import T
+
+    h.enter()
+    if h.blocked(**a):
+        return True
+    sel = h.SEL
+    if sel.get("accepted"):
+        T[sel["template"]].accepted = list(sel["accepted"])
+    ok, detail, _w = base.run_history(sel, a, on_step=c02._checker(sel))
+    if not ok and not h.TWIN:
+        LAST_DETAIL[0] = detail
+    return h.verdict(ok)
+
+
+def refuse_impl(a):
+    """A data function defined in a non-accepted module is refused with an error naming the module; no user code runs."""
+    import harness.C01 as base
+    from vlib.templates import T
+    from vlib.world import World
+    from vlib import tick
+    import dds
+    from dds.structures import DDSException
+
+    h.enter()
+    t = T["T14"]
+    w = World(t, "memory")
+    fn = w.real.mods["tx.lib"].__dict__["xf"]
+    tick.reset()
+    try:
+        if a["k"] == 0:
+            fn()
+        else:
+            dds.eval(fn)
+        ok = False
+        LAST_DETAIL[0] = "a data function of the non-accepted module tx.lib was evaluated untracked"
+    except DDSException as e:
+        ok = "tx" in str(e) and not tick.LOG
+        if not ok:
+            LAST_DETAIL[0] = "refusal does not name the module or user code ran: %r / log %r" % (str(e)[:120], list(tick.LOG))
+    finally:
+        import dds._api as api
+
+        api._eval_ctx = None
+    return h.verdict(ok)
+
+
+LAST_DETAIL = [""]
+
+
 def queries(tier):
     qs = []
     nmax = 8 if tier == "quick" else 44
@@ -156,6 +230,28 @@ def queries(tier):
             qs.append({"id": "z3.d%d.n%d" % (d, n), "kind": "z3", "fn": "z3_auth", "sel": {"d": d, "n": n}, "timeout": 60, "no_twin": (n % 4 != 1)})
     for d in range(1, 7):
         qs.append({"id": "ch.d%d" % d, "fn": "kern", "sel": {"d": d}, "timeout": 300})
+    # (b) templates: values on both sides of the boundary are solver variables
+    def hq(qid, steps, accepted, timeout=600):
+        # edits are the subject here: the tracked variables are pinned (their values are the subject of pkg.value.*)
+        fixed = {"V": [1, 1], "U": [2, 2], "W": [3, 3], "D": [4, 4]}
+        qs.append({"id": qid, "fn": "hist", "sel": {"template": "T14", "steps": steps, "leaf_type": {}, "nargs": False, "store": "memory", "fixed": fixed, "accepted": accepted}, "timeout": timeout})
+
+    def hv(qid, var, accepted):
+        fixed = dict((v, [0, 0]) for v in ("V", "U", "W", "D") if v != var)
+        qs.append({"id": qid, "fn": "hist", "sel": {"template": "T14", "steps": [{}, {}], "leaf_type": {}, "nargs": False, "store": "memory", "fixed": fixed, "accepted": accepted}, "timeout": 600})
+
+    acc = ["tq2", "ta.inner", "tq"]
+    hv("pkg.value.V", "V", acc)  # read by a function called by its fully qualified name through the non-accepted parent package ta
+    hv("pkg.value.U", "U", acc)  # read by a function called through `from ta.inner import leaf as lf`
+    hv("pkg.value.D", "D", acc)  # variable three package levels below the accepted prefix
+    hv("pkg.value.W", "W", acc)  # variable of tq2, accepted BEFORE tq (a name that extends it)
+    hv("pkg.value.W.rev", "W", ["tq", "ta.inner", "tq2"])
+    hq("pkg.body.leaf", [{}, {"variants": {"ta.inner.leaf": "b"}, "leaves_from": 0, "expect": {"executed": ["f"]}}], acc)
+    hq("pkg.body.deep", [{}, {"variants": {"ta.inner.sub.deeper.deepest": "b"}, "leaves_from": 0, "expect": {"executed": ["g", "f"]}}], acc)
+    hq("pkg.body.tq2", [{}, {"variants": {"tq2.helpers": "b"}, "leaves_from": 0, "expect": {"executed": ["f"], "not_executed": ["g"], "same_sig": [0, ["/t14/g"]]}}], acc)
+    hq("pkg.outside.body", [{}, {"variants": {"ta.outer": "b"}, "leaves_from": 0, "no_value_check": True, "expect": {"exec_none": True, "same_sig": [0, ["/t14/f", "/t14/g"]]}}], acc)
+    hq("pkg.outside.var", [{}, {"leaves_from": 0, "vary": ["Z"], "no_value_check": True, "expect": {"exec_none": True, "same_sig": [0, ["/t14/f", "/t14/g"]]}}], acc)
+    qs.append({"id": "pkg.refuse", "fn": "refuse", "sel": {"template": "T14", "no_log_stub": True}, "timeout": 200})
     return qs
 
 
@@ -164,6 +260,24 @@ def functions_encoded():
 
 
 def replay(sel, args, fn):
+    if fn == "hist":
+        import hashlib
+        import struct
+        import dds.fun_args as fa
+        import harness.C01 as base
+        import harness.C02 as c02
+        from vlib.templates import T
+
+        fa.hashlib = hashlib
+        fa.struct = struct
+        if sel.get("accepted"):
+            T[sel["template"]].accepted = list(sel["accepted"])
+        ok, detail, _w = base.run_history(sel, args, on_step=c02._checker(sel))
+        return {"reproduced": not ok, "detail": ("template T14 (accepted %r), real hashing: %s" % (sel.get("accepted"), detail)) if not ok else "real hashing: as expected"}
+    if fn == "refuse":
+        h.SEL.update(sel)
+        ok = refuse_impl(dict(args))
+        return {"reproduced": not ok, "detail": LAST_DETAIL[0] if not ok else "refused with a DDS error naming the module"}
     if fn == "z3_auth":
         parts, accepted = args["parts"], args["accepted"]
     else:
